@@ -110,9 +110,10 @@ def print_part(chk, vh, quick):
 def choice_part(chk, vh, quick):
     wd = vlib.workdir("c19-choice")
     jobs = []
-    plans = [(4, 12, 3, ""), (8, 8, 2, ""), (2, 12, 6, ""), (4, 2, 400, "stress"), (8, 2, 250, "stress"), (16, 1, 150, "stress")]
+    plans = [(4, 12, 3, ""), (8, 8, 2, ""), (2, 12, 6, ""), (4, 2, 400, "stress"), (8, 2, 250, "stress"), (16, 1, 150, "stress"),
+             (4, 2, 400, "stress0"), (8, 2, 250, "stress0")]
     if not quick:
-        plans = [(4, 60, 3, ""), (8, 40, 2, ""), (2, 60, 6, ""), (16, 30, 1, ""), (3, 60, 4, "")] + [(4, 4, 800, "stress"), (8, 4, 500, "stress"), (16, 4, 300, "stress"), (2, 4, 1500, "stress")] * 2
+        plans = [(4, 60, 3, ""), (8, 40, 2, ""), (2, 60, 6, ""), (16, 30, 1, ""), (3, 60, 4, "")] + [(4, 4, 800, "stress"), (8, 4, 500, "stress"), (16, 4, 300, "stress"), (2, 4, 1500, "stress"), (4, 4, 800, "stress0"), (8, 4, 500, "stress0")] * 2
     for k, (threads, rounds, ops, mode) in enumerate(plans):
         r = subprocess.run([vh, "choice-child", str(threads), str(rounds), str(ops), str(chk.seed + k)] + ([mode] if mode else []), stdout=subprocess.PIPE, stderr=subprocess.PIPE, text=True, timeout=300)
         if r.returncode != 0:
